@@ -239,7 +239,7 @@ func C09(tier rt.Tier) int {
 			{name: "snapshot-3keys", keys: []int{0, 1, 4}, vals: []string{"a", "b"}, levels: []int{0, 64}, snap: []int{0, 1, 64}, depth: 6, maxNoDup: 4},
 		}
 	} else {
-		per = 8 * time.Minute
+		per = 4 * time.Minute
 		runs = []cfg{
 			{name: "6keys-mem+commit", keys: []int{0, 1, 2, 3, 4, 5}, vals: []string{"a", "b"}, levels: []int{0, 1, 2, 3, 64}, gc: true, reload: true, rootOp: true, depth: 6, maxNoDup: 4},
 			{name: "3keys-deep", keys: []int{0, 1, 2}, vals: []string{"a", "b", "c"}, levels: []int{0, 1, 2, 3, 64}, gc: true, reload: true, rootOp: true, depth: 9, maxNoDup: 5},
